@@ -1,14 +1,13 @@
 SPECIFICATION Spec
 CONSTANTS
-  Mods = {"a", "b"}
+  Mods = {"a", "b", "c"}
   HasPxd = {"a", "b"}
-  Pxis = {"i"}
-  MaxT = 2
-  MaxLen = 4
-  Cadence = 0
-  Dump = FALSE
-  FromFile = FALSE
-VIEW NoHistView
+  Pxis = {"i", "j"}
+  MaxT = 3
+  MaxLen = 12
+  Cadence = 3
+  Dump = TRUE
+  FromFile = TRUE
 INVARIANT TypeOK
 INVARIANT IncAcyclic
 INVARIANT DepsAgree
@@ -16,4 +15,5 @@ INVARIANT DepsAgreePxd
 INVARIANT RebuildAgree
 INVARIANT BuildIsFixpoint
 INVARIANT NoSpuriousRebuild
+INVARIANT DumpLeaves
 CHECK_DEADLOCK FALSE
